@@ -4,8 +4,10 @@ package main
 
 import (
 	"context"
+	crand "crypto/rand"
 	"crypto/sha256"
 	"encoding/base64"
+	"encoding/hex"
 	"encoding/json"
 	"fmt"
 	"net/http"
@@ -69,6 +71,8 @@ type fakeIDP struct {
 	validRT  map[string]*rtInfo
 	codes    map[string]*authzRequest
 	codeSeq  int
+	salt     string   // makes minted token strings high-entropy, so that scanning logs for them is unambiguous
+	minted   []string // every access / refresh / ID token string handed out
 	parReqs  map[string]url.Values
 	nextMode string // "", "4xx", "5xx", "badjson"
 	log      []idpLogEntry
@@ -89,7 +93,9 @@ type rtInfo struct {
 
 func newFakeIDP(clientID string) *fakeIDP {
 	keys, _ := sharedKeys()
-	return &fakeIDP{keys: keys, clientID: clientID, counter: 1, tau: 3600, rotate: true,
+	sb := make([]byte, 9)
+	crand.Read(sb)
+	return &fakeIDP{salt: hex.EncodeToString(sb), keys: keys, clientID: clientID, counter: 1, tau: 3600, rotate: true,
 		validRT: map[string]*rtInfo{}, codes: map[string]*authzRequest{}, parReqs: map[string]url.Values{},
 		idTokens: map[string]int{}, start: time.Now()}
 }
@@ -197,11 +203,12 @@ func (p *fakeIDP) token(w http.ResponseWriter, r *http.Request) {
 		newRT := rt
 		if p.rotate {
 			delete(p.validRT, rt)
-			newRT = fmt.Sprintf("rt-%d", n)
+			newRT = fmt.Sprintf("rt-%s-%d", p.salt, n)
 		}
 		p.validRT[newRT] = &rtInfo{sid: info.sid, acr: info.acr, at: n}
 		w.Header().Set("Content-Type", "application/json")
-		json.NewEncoder(w).Encode(map[string]any{"access_token": fmt.Sprintf("at-%d", n), "token_type": "Bearer",
+		p.minted = append(p.minted, fmt.Sprintf("at-%s-%d", p.salt, n), newRT)
+		json.NewEncoder(w).Encode(map[string]any{"access_token": fmt.Sprintf("at-%s-%d", p.salt, n), "token_type": "Bearer",
 			"refresh_token": newRT, "expires_in": p.tau})
 	case "authorization_code":
 		code := f.Get("code")
@@ -228,9 +235,10 @@ func (p *fakeIDP) token(w http.ResponseWriter, r *http.Request) {
 		}
 		n := p.counter
 		p.counter++
-		rt := fmt.Sprintf("rt-%d", n)
+		rt := fmt.Sprintf("rt-%s-%d", p.salt, n)
+		p.minted = append(p.minted, fmt.Sprintf("at-%s-%d", p.salt, n), rt)
 		p.validRT[rt] = &rtInfo{sid: req.Sid, acr: req.Acr, at: n}
-		resp := map[string]any{"access_token": fmt.Sprintf("at-%d", n), "token_type": "Bearer",
+		resp := map[string]any{"access_token": fmt.Sprintf("at-%s-%d", p.salt, n), "token_type": "Bearer",
 			"refresh_token": rt, "expires_in": p.tau}
 		if !p.omitIDToken {
 			idt, err := p.mintIDToken(req)
@@ -239,6 +247,7 @@ func (p *fakeIDP) token(w http.ResponseWriter, r *http.Request) {
 				return
 			}
 			p.idTokens[idt] = n
+			p.minted = append(p.minted, idt)
 			resp["id_token"] = idt
 		}
 		w.Header().Set("Content-Type", "application/json")
